@@ -284,6 +284,109 @@ def match_variable_known(real, known_rows, c):
 FINDING_OF_DEV = {"DailyJan1Hole": "KF-C08-1", "PrevYearStale": "KF-C08-2", "LateSecond": "KF-C09-1"}
 
 
+AMPL = 60      # every model interval stands for a block of AMPL consecutive real intervals
+
+
+def ampl_epoch(c, i, j):
+    """real interval j of the block that stands for model interval i: blocks are laid out in model order from the start of the
+    year, the last position of a year ends at the year's last interval"""
+    if i <= c.ni0:
+        y, p, n = c.y0, i, c.ni0
+    else:
+        y, p, n = c.y1, i - c.ni0, c.ni1
+    if p == n and n >= 2:
+        return year_start(y) + year_len(y) - (AMPL - j) * c.tfsec
+    return year_start(y) + ((p - 1) * (AMPL + 2) + j) * c.tfsec
+
+
+def amplified_cases(rng, cases, all_behs, quick, ni0, ni1, no):
+    """The flush of a fixed-length bucket takes another code path (a buffered file) when one transaction carries 100 or more
+    write commands for one year file - a size no TLC behaviour has.  A behaviour is therefore also replayed AMPLIFIED: every
+    model interval becomes a block of AMPL consecutive intervals and every model row AMPL rows (one per interval of the block,
+    in block order), so a request of 2-3 model rows becomes 120-180 commands in which the rows of one interval are far apart.
+    The model's prediction is amplified in the same way (a homomorphic image of the behaviour)."""
+    def score(b):
+        best = 0
+        for st in b[2]:
+            rows = st["rows"]
+            if st.get("hit"):
+                return -1
+            for yr in (0, 1):
+                inyear = [r for r in rows if (r["i"] <= ni0) == (yr == 0)]
+                if len(inyear) * AMPL >= 100:
+                    dup = any(a["i"] == b2["i"] and a["v"] != b2["v"] for a in inyear for b2 in inyear)
+                    best = max(best, 2 if dup else 1)
+        return best
+    good = [b for b in all_behs if score(b) == 2]
+    ok = [b for b in all_behs if score(b) == 1]
+    rng.shuffle(good)
+    rng.shuffle(ok)
+    n = 6 if quick else 40
+    pick = good[:n - n // 3] + ok[:n // 3]
+    meta = {}
+    for k, (tfname, tfsec, beh) in enumerate(pick):
+        schema = SCHEMAS[k % len(SCHEMAS)]
+        c = Concretisation(rng, tfname, tfsec, ni0, ni1, no, schema, "fixed")
+        key = "AMP%d/%s/G" % (k, tfname)
+        ops = []
+        for st in beh:
+            ep, cols = [], [[] for _ in schema]
+            for r in st["rows"]:
+                for j in range(AMPL):
+                    ep.append(ampl_epoch(c, r["i"], j))
+                    for q, v in enumerate(c.vals(r["v"])):
+                        cols[q].append(v)
+            wcols = [{"name": "Epoch", "type": "i8", "vals": ep}] + [{"name": nm, "type": t, "vals": cols[q]} for q, (nm, t) in enumerate(schema)]
+            ops.append({"op": "write", "var": False, "buckets": [{"key": key, "cols": wcols}]})
+            ops.append({"op": "query", "dest": key})
+        cid = "amp%d" % k
+        cases.append({"id": cid, "ops": ops})
+        meta[json.dumps(cid)] = (beh, c, key)
+    return meta
+
+
+def check_amplified(res, obs, cases, meta):
+    n = 0
+    for cid, (beh, c, key) in meta.items():
+        o = obs.get(cid)
+        replay = {"check": "store.amplified", "concretisation": c.describe(), "key": key, "behaviour": beh, "amplification": AMPL,
+                  "ops": [x for x in cases if json.dumps(x["id"]) == cid][0]["ops"], "seed": vlib.seed()}
+        if o is None:
+            raise Undecided("no observation for case %s" % cid)
+        if isinstance(o, dict) and "died" in o:
+            res.violation("server process died (%s) during an amplified write/query history on %s: %s" % (o["died"], key, o["stderr"][-500:]), replay)
+            continue
+        for k, st in enumerate(beh):
+            w, q = o[2 * k], o[2 * k + 1]
+            if w.get("driver_error"):
+                raise Undecided("driver error: %s" % w)
+            if w.get("panic") or w.get("err"):
+                res.violation("successful-by-contract write of %d rows failed on %s step %d: %s" % (len(st["rows"]) * AMPL, key, k, str(w)[:300]), replay)
+                break
+            real = result_rows(q, key, c.schema, "fixed")
+            want = [(ampl_epoch(c, r["i"], j), c.vals(r["v"])) for r in st["expect"] for j in range(AMPL)]
+            bad = None
+            if isinstance(real, str):
+                bad = real
+            elif len(real) != len(want):
+                bad = "%d rows, expected %d" % (len(real), len(want))
+            else:
+                for (ep, ns, vals), (wep, wv) in zip(real, want):
+                    if ep != wep or not fvals_equal(vals, wv, c.schema):
+                        bad = "row stamped %d holds %s; expected interval %d with %s" % (ep, vals, wep, wv)
+                        break
+            if bad:
+                res.violation("query after step %d of an amplified history on %s (%s, one request = %d rows, %d per model row): %s; model rows of the step %s, model prediction %s" % (
+                    k, key, c.tf, len(st["rows"]) * AMPL, AMPL, bad, st["rows"], st["expect"]), replay)
+                break
+        else:
+            n += 1
+            res.cov["traces_validated_against_impl"] += 1
+    if meta:
+        res.cov["amplified_behaviours_replayed"] = n
+        res.cov["amplification"] = "%d real intervals per model interval: requests of %d-%d rows (the flush switches to a buffered file at 100 commands per year file)" % (AMPL, AMPL, 3 * AMPL)
+
+
 def run(prop, tier):
     kind = "fixed" if prop == "C08" else "variable"
     # every second case goes through the gRPC front end (frontend.GRPCService, requests and responses passed through the
@@ -321,6 +424,7 @@ def run(prop, tier):
     root = os.path.join(vlib.scratch(), "root_%s" % prop)
     cases.append({"id": "start", "ops": [{"op": "start", "root": root}]})
     sym = 0
+    all_behs = []
     for tfname, tfsec in TIMEFRAMES:
         tfc = "daily" if tfname == "1D" else "intraday"
         cfg = "Store_%s_%s_sim.cfg" % (kind, tfc)
@@ -333,6 +437,8 @@ def run(prop, tier):
         behs = r["records"].get("BEH", [])
         if len(behs) < nbeh // 2:
             raise Undecided("TLC produced only %d behaviours for %s" % (len(behs), cfg))
+        if tfc == "intraday":
+            all_behs += [(tfname, tfsec, b) for b in behs]
         for beh in behs:
             sym += 1
             schema = SCHEMAS[sym % len(SCHEMAS)]
@@ -351,8 +457,12 @@ def run(prop, tier):
             cid = "b%d" % sym
             cases.append({"id": cid, "ops": ops})
             meta[json.dumps(cid)] = (beh, c, key, explicit_create)
+    ampl_meta = {}
+    if kind == "fixed":
+        ampl_meta = amplified_cases(rng, cases, all_behs, quick, ni0, ni1, no)
     obs = vlib.run_cases(binary, cases, timeout=3000)
     shutil.rmtree(root, ignore_errors=True)
+    check_amplified(res, obs, cases, ampl_meta)
     match = match_fixed if kind == "fixed" else match_variable
     match_known = match_fixed if kind == "fixed" else match_variable_known
     nontrivial = set()
